@@ -5,7 +5,7 @@ import ast
 
 from ..algebra import NotPolynomial, Poly, ToPoly
 from ..flow import axis_loops, rename
-from ..fold import Folder, Opaque, Raised, Refuse, Sym, TypeTag
+from ..fold import Folder, Obj, Opaque, Raised, Refuse, Sym, TypeTag
 from ..report import AnalysisError
 from ..srcmodel import norm
 from . import c20
@@ -140,6 +140,233 @@ class MapExtract:
             raise AnalysisError(f"{self.func.qname}: stored expression outside the polynomial language: {e}")
 
 
+# ---- column-wise symbolic evaluation of the coordinate maps (per dimension, table folded in) ---------
+
+class Floor:
+    """np.floor(inner) of a polynomial."""
+
+    def __init__(self, inner, fn="np.floor"):
+        self.inner, self.fn = inner, fn
+
+    def __repr__(self):
+        return f"{self.fn}({self.inner!r})"
+
+
+class Cols:
+    """Array with one symbolic entry per column (single point or one-point-per-row batch)."""
+
+    def __init__(self, cols):
+        self.cols = list(cols)
+
+    def __repr__(self):
+        return "Cols" + repr(self.cols)
+
+
+def _ew(op, a, b):
+    """Elementwise arithmetic on Poly / Cols / int lists."""
+    def bin_(x, y):
+        if isinstance(x, Floor) or isinstance(y, Floor) or x is None or y is None:
+            raise Refuse("arithmetic on an unset or rounded column")
+        x = x if isinstance(x, Poly) else Poly.const(x)
+        y = y if isinstance(y, Poly) else Poly.const(y)
+        if isinstance(op, ast.Add):
+            return x + y
+        if isinstance(op, ast.Sub):
+            return x - y
+        if isinstance(op, ast.Mult):
+            return x * y
+        if isinstance(op, ast.Div):
+            return x / y
+        raise Refuse("operator")
+    la = a.cols if isinstance(a, Cols) else (list(a) if isinstance(a, (list, tuple)) else None)
+    lb = b.cols if isinstance(b, Cols) else (list(b) if isinstance(b, (list, tuple)) else None)
+    if la is not None and lb is not None:
+        if len(la) != len(lb):
+            raise Refuse("column count mismatch")
+        return Cols([bin_(x, y) for x, y in zip(la, lb)])
+    if la is not None:
+        return Cols([bin_(x, b) for x in la])
+    if lb is not None:
+        return Cols([bin_(a, y) for y in lb])
+    return bin_(a, b)
+
+
+class ColFolder(Folder):
+    """Folder with a column model of 2-d point arrays: A[:, k] / A[:, [k...]] / A[k], elementwise arithmetic, np.floor."""
+
+    def __init__(self, resolver, d):
+        super().__init__(resolver)
+        self.d = d
+
+    def e_BinOp(self, n, env):
+        a, b = self.ev(n.left, env), self.ev(n.right, env)
+        if isinstance(a, (Cols, Poly)) or isinstance(b, (Cols, Poly)):
+            try:
+                return _ew(n.op, a, b)
+            except NotPolynomial as e:
+                raise Refuse(str(e))
+        return super().e_BinOp(n, env)
+
+    def e_UnaryOp(self, n, env):
+        v = self.ev(n.operand, env)
+        if isinstance(n.op, ast.USub) and isinstance(v, (Cols, Poly)):
+            return _ew(ast.Mult(), v, -1)
+        return super().e_UnaryOp(n, env)
+
+    def _col_index(self, sl, env):
+        """Index expression of A[:, k] / A[k] -> int or list of ints."""
+        if isinstance(sl, ast.Tuple) and len(sl.elts) == 2 and isinstance(sl.elts[0], ast.Slice) and sl.elts[0].lower is None and sl.elts[0].upper is None:
+            sl = sl.elts[1]
+        elif isinstance(sl, ast.Tuple):
+            raise Refuse("subscript form")
+        k = self.ev(sl, env)
+        if isinstance(k, int) and not isinstance(k, bool):
+            return k
+        if isinstance(k, (list, tuple)) and all(isinstance(x, int) for x in k):
+            return list(k)
+        raise Refuse("non-constant column index")
+
+    def e_Subscript(self, n, env):
+        v = self.ev(n.value, env)
+        if isinstance(v, Cols):
+            k = self._col_index(n.slice, env)
+            try:
+                if isinstance(k, int):
+                    return v.cols[k]
+                return Cols([v.cols[i] for i in k])
+            except IndexError:
+                raise Raised("IndexError", n)
+        if isinstance(v, dict) and not isinstance(n.slice, ast.Slice):
+            k = self.ev(n.slice, env)
+            if k in v:
+                return v[k]
+        return super().e_Subscript(n, env)
+
+    def assign(self, t, v, env):
+        if isinstance(t, ast.Subscript):
+            c = self.ev(t.value, env)
+            if isinstance(c, Cols):
+                k = self._col_index(t.slice, env)
+                if isinstance(k, int):
+                    if not (0 <= k < len(c.cols)):
+                        raise Raised("IndexError", t)
+                    c.cols[k] = v
+                else:
+                    vs = v.cols if isinstance(v, Cols) else None
+                    if vs is None or len(vs) != len(k):
+                        raise Refuse("column scatter form")
+                    for i, x in zip(k, vs):
+                        c.cols[i] = x
+                return
+        return super().assign(t, v, env)
+
+    def e_Attribute(self, n, env):
+        if n.attr == "shape":
+            v = self.ev(n.value, env)
+            if isinstance(v, Cols):
+                return ("N", len(v.cols))
+        return super().e_Attribute(n, env)
+
+    def method_call(self, n, env):
+        f = n.func
+        recv = self.ev(f.value, env)
+        if isinstance(recv, (Cols, Floor, Poly)) and f.attr in ("reshape", "astype", "copy", "view"):
+            return recv
+        return super().method_call(n, env)
+
+    # numpy models ---------------------------------------------------------------
+    def _passthrough(self, a, kw):
+        return a[0]
+
+    c_np_atleast_2d = c_np_asarray = _passthrough
+
+    def c_np_array(self, a, kw):
+        v = a[0]
+        if isinstance(v, (list, tuple)) and any(isinstance(x, (Poly, Floor)) for x in v):
+            return Cols(v)
+        if isinstance(v, (list, tuple)) and all(isinstance(x, int) for x in v):
+            return list(v)
+        if isinstance(v, Cols):
+            return v
+        return super().c_np_array(a, kw)
+
+    def c_np_empty_like(self, a, kw):
+        if isinstance(a[0], Cols):
+            return Cols([None] * len(a[0].cols))
+        raise Refuse("empty_like")
+
+    c_np_zeros_like = c_np_empty_like
+
+    def _round(self, fn, v):
+        if isinstance(v, Cols):
+            return Cols([self._round(fn, x) for x in v.cols])
+        if isinstance(v, Floor):
+            return v  # rounding an already rounded (integral) value
+        if isinstance(v, Poly):
+            return Floor(v, fn)
+        raise Refuse("rounding of unknown value")
+
+    def c_np_floor(self, a, kw):
+        return self._round("np.floor", a[0])
+
+    def c_np_round(self, a, kw):
+        return self._round("np.round", a[0])
+
+    def c_np_ceil(self, a, kw):
+        return self._round("np.ceil", a[0])
+
+    def c_np_rint(self, a, kw):
+        return self._round("np.rint", a[0])
+
+    def c_isinstance(self, a, kw):
+        v, t = a
+        if isinstance(v, Cols):
+            tags = t if isinstance(t, tuple) else (t,)
+            names = {getattr(x, "name", None) or getattr(x, "fn", None) or str(x) for x in tags}
+            return any("ndarray" in str(x) for x in names)
+        return super().c_isinstance(a, kw)
+
+    def e_Name(self, n, env):
+        if n.id not in env and n.id in ("np",):
+            raise Refuse("bare module")
+        return super().e_Name(n, env)
+
+
+def eval_map(ctx, func, d, T_i):
+    """Symbolically evaluate CoordinateSystem.<func> for dimension d on a batch whose columns are IN0..IN{d-1}."""
+    m = ctx.model
+    interp = m.func(IDX, "interpret_indexing")
+    makers = {m.func(PT, "make_voxel"), m.func(PT, "make_coordinate")}
+
+    class F(ColFolder):
+        def e_Call(self, n, env):
+            t = m.resolve_call(n, func)
+            if t in makers and n.args:
+                return self.ev(n.args[0], env)
+            if isinstance(n.func, ast.Attribute) and n.func.attr in ("ndarray",):
+                raise Refuse("ndarray call")
+            return super().e_Call(n, env)
+
+        def e_Attribute(self, n, env):
+            if isinstance(n.value, ast.Name) and n.value.id == "np" and n.attr == "ndarray":
+                return TypeTag("np.ndarray")
+            return super().e_Attribute(n, env)
+
+    def resolver(call):
+        t = m.resolve_call(call, func)
+        return t.node if t is interp else None
+
+    axes = "xyz"[:d]
+    me = Obj("self", {
+        "axes": axes, "indexing": "ijk"[:d], "dim": d,
+        "voxel_size": {a: Poly.atom(f"h_{a}") for a in axes},
+        "_coordinate_of_origin_voxel": Cols([Poly.atom(f"o{c}") for c in range(d)]),
+    })
+    inp = Cols([Poly.atom(f"IN{k}") for k in range(d)])
+    fo = F(resolver, d)
+    return fo.call(func.node, [me, inp])
+
+
 def ctx_dotted(n):
     from ..algebra import dotted
 
@@ -155,34 +382,62 @@ def rule_b(ctx):
     m = ctx.model
     ctx.consult(CS)
     ctx.consult(IMG)
-    fwd = MapExtract(ctx, m.func(CS, "CoordinateSystem.coordinate"), R)
-    inv = MapExtract(ctx, m.func(CS, "CoordinateSystem.voxel"), R)
-    vec = MapExtract(ctx, m.func(CS, "CoordinateSystem.coordinate_vector"), R)
+    T_i, _, _ = c20.extract_tables(ctx)
+    f_fwd = m.func(CS, "CoordinateSystem.coordinate")
+    f_inv = m.func(CS, "CoordinateSystem.voxel")
+    f_vec = m.func(CS, "CoordinateSystem.coordinate_vector")
     ctx.floor(R, 4)
-    S, V, H, O = Poly.atom("s"), Poly.atom("IN[:,$p]"), Poly.atom("self.voxel_size[$e]"), Poly.atom("self._coordinate_of_origin_voxel[$k]")
-    for mx in (fwd, inv, vec):
+    for d in (1, 2, 3):
         ctx.instance(R)
-        q = mx.func.qname
-        ctx.ob(R, q, "axis loop iterates enumerate(self.axes)", mx.iter_ok and mx.has_counter, f"iterates {norm(mx.al.iterable)}", mx.al.loop)
-        ctx.ob(R, q, "axis looked up as interpret_indexing(axis, self.indexing)", mx.lookup_ok, norm(mx.al.call), mx.al.call)
-    # forward
-    w, pf = fwd.rhs()
-    ctx.ob(R, fwd.func.qname, "stores Cartesian column OUT[:,c]", fwd.target_role() == "OUT[:,$k]", f"target {norm(fwd.store.targets[0])}", fwd.store)
-    ctx.ob(R, fwd.func.qname, "coordinate == origin[c] + s * voxel[:,pos] * voxel_size[axis]", w is None and pf == O + S * V * H,
-           f"normal form: {pf!r} (wrapper {w})", fwd.store)
-    # vector
-    w, pv = vec.rhs()
-    ctx.ob(R, vec.func.qname, "stores Cartesian column OUT[:,c]", vec.target_role() == "OUT[:,$k]", f"target {norm(vec.store.targets[0])}", vec.store)
-    ctx.ob(R, vec.func.qname, "coordinate_vector == s * pixel[:,pos] * voxel_size[axis]", w is None and pv == S * V * H,
-           f"normal form: {pv!r}", vec.store)
-    # inverse
-    w, pi = inv.rhs()
-    ctx.ob(R, inv.func.qname, "stores matrix column OUT[:,pos]", inv.target_role() == "OUT[:,$p]", f"target {norm(inv.store.targets[0])}", inv.store)
-    ctx.ob(R, inv.func.qname, "voxel index is the np.floor of the affine pre-image", w in ("np.floor", "numpy.floor", "math.floor"),
-           f"outermost operation on the stored value is {w}", inv.store)
-    comp = pi.subst("IN[:,$k]", pf).reduce_involutions({"s"})
-    ctx.ob(R, inv.func.qname, "voxel(coordinate(v)) == floor(v) (normal forms compose to the identity)", comp == V,
-           f"composition normal form: {comp!r}", inv.store)
+        res = {}
+        for key, f in (("fwd", f_fwd), ("inv", f_inv), ("vec", f_vec)):
+            try:
+                v = eval_map(ctx, f, d, T_i)
+            except Raised as e:
+                ctx.ob(R, f.qname, f"dim {d}: evaluates", False, f"raises {e.name}", f.node)
+                v = None
+            except Refuse as e:
+                raise AnalysisError(f"{f.qname} (dim {d}) outside the column-folding language: {e}")
+            res[key] = v.cols if isinstance(v, Cols) else None
+            if v is not None and res[key] is None:
+                raise AnalysisError(f"{f.qname} (dim {d}): result is not a point array ({v!r})")
+        axes = "xyz"[:d]
+        want_f, want_v = [], []
+        for c, a in enumerate(axes):
+            row = T_i[(a, "ijk"[:d])]
+            if row[0] != "ret":
+                raise AnalysisError(f"interpret_indexing({a!r}, {'ijk'[:d]!r}) is not defined")
+            pos, rev = row[1]
+            sgn = -1 if rev else 1
+            lin = Poly.atom(f"IN{pos}") * Poly.atom(f"h_{a}") * sgn
+            want_f.append(Poly.atom(f"o{c}") + lin)
+            want_v.append(lin)
+        if res["fwd"] is not None:
+            for c, a in enumerate(axes):
+                ctx.ob(R, f_fwd.qname, f"dim {d}: coordinate[{a}] = origin[{c}] + s * voxel[pos({a})] * voxel_size[{a}] with pos, s from the axis table",
+                       isinstance(res["fwd"][c], Poly) and res["fwd"][c] == want_f[c], f"got {res['fwd'][c]!r}, table prescribes {want_f[c]!r}", f_fwd.node)
+        if res["vec"] is not None:
+            for c, a in enumerate(axes):
+                ctx.ob(R, f_vec.qname, f"dim {d}: coordinate_vector[{a}] = s * pixel[pos({a})] * voxel_size[{a}]",
+                       isinstance(res["vec"][c], Poly) and res["vec"][c] == want_v[c], f"got {res['vec'][c]!r}, table prescribes {want_v[c]!r}", f_vec.node)
+        if res["inv"] is not None:
+            for mi in range(d):
+                e = res["inv"][mi]
+                is_floor = isinstance(e, Floor) and e.fn in ("np.floor", "math.floor")
+                ctx.ob(R, f_inv.qname, f"dim {d}: voxel index {mi} is the np.floor of an affine expression", is_floor,
+                       f"matrix component {mi} is {e!r}: a float->int conversion that is not floor truncates toward zero (wrong on the negative halo)", f_inv.node)
+                inner = e.inner if isinstance(e, Floor) else (e if isinstance(e, Poly) else None)
+                if inner is None:
+                    continue
+                comp = inner
+                # substitute the forward map: Cartesian input column c := coordinate column c of voxel V
+                tmp_names = {c: f"__C{c}" for c in range(d)}
+                for c in range(d):
+                    comp = comp.subst(f"IN{c}", Poly.atom(tmp_names[c]))
+                for c in range(d):
+                    comp = comp.subst(tmp_names[c], want_f[c].subst(f"IN{T_i[(axes[c], 'ijk'[:d])][1][0]}", Poly.atom(f"V{T_i[(axes[c], 'ijk'[:d])][1][0]}")))
+                ctx.ob(R, f_inv.qname, f"dim {d}: voxel(coordinate(V))[{mi}] == floor(V[{mi}])", comp == Poly.atom(f"V{mi}"),
+                       f"composition with the table-prescribed forward map gives {comp!r} for matrix component {mi}", f_inv.node)
     # __init__: voxel_size[axis] = img.voxel_size[pos], origin provenance
     init = m.func(CS, "CoordinateSystem.__init__")
     loops = axis_loops(m, init, m.func(IDX, "interpret_indexing"))
